@@ -4,7 +4,8 @@
    A Go map is modelled by a list; "for every iteration order" = "for every permutation". *)
 From Coq Require Import Permutation.
 From SG Require Import Base.Prelude C04.RevId C04.RevTree C04.DocModel C04.OrderProofs C04.WinnerProofs
-  C04.WfProofs C04.FlagsProofs C04.PushProofs C04.PruneProofs C04.CodecProofs C04.DocProofs.
+  C04.WfProofs C04.FlagsProofs C04.PushProofs C04.PruneProofs C04.PruneLeaves C04.CodecProofs C04.DocProofs
+  C04.DocProofsPrune C04.TextIds.
 Open Scope N_scope.
 
 (* ---- compareRevIDs: a total order, generation first, then byte-wise digest ---- *)
@@ -19,12 +20,25 @@ Proof.
 Qed.
 Print Assumptions C04_cmp_total_order.
 
-(* the comparison of textual ids is the comparison of what they parse to; accepted ids have generation >= 1 *)
+(* textual ids ([parse_revid], [cmp_raw] = the repaired parser, code_fixed = true): comparison is the
+   comparison of what they parse to, accepted ids have generation >= 1, and - since non-canonical
+   generations ("01", "+1") are rejected - an accepted string is determined by the pair it parses to:
+   two different accepted ids never compare equal *)
 Theorem C04_cmp_textual : forall s1 s2 g1 d1 g2 d2,
   parse_revid s1 = Some (g1, d1) -> parse_revid s2 = Some (g2, d2) ->
   cmp_raw s1 s2 = cmp_to_Z (cmp_id (I g1 d1) (I g2 d2)) /\ 1 <= g1.
 Proof. intros. split; [apply cmp_raw_parsed; assumption | eapply parse_revid_gen_pos; eauto]. Qed.
 Print Assumptions C04_cmp_textual.
+
+Theorem C04_textual_ids_injective : forall a b xa xb,
+  parse_revid a = Some xa -> parse_revid b = Some xb ->
+  (xa = xb -> a = b) /\ (cmp_raw a b = 0%Z -> a = b).
+Proof.
+  intros a b xa xb Ha Hb. split.
+  - intros <-. exact (parse_fixed_injective a b xa Ha Hb).
+  - exact (cmp_fixed_zero_same a b xa xb Ha Hb).
+Qed.
+Print Assumptions C04_textual_ids_injective.
 
 (* ---- the winner does not depend on the iteration order of the leaves (no hypothesis at all) ---- *)
 Theorem C04_winner_perm : forall l l', Permutation l l' -> winner_fold l = winner_fold l'.
@@ -85,10 +99,10 @@ Print Assumptions C04_order_independent_adds.
 
 (* ---- order independence, database level: the same revisions of a source forest S pushed with their
    ancestries (PutExistingRev, conflicts allowed) in two different orders ---- *)
-Theorem C04_push_order_independent : forall S ps1 ps2 limit,
+Theorem C04_push_order_independent : forall fx S ps1 ps2 limit,
   wf S -> Forall (valid_push S) ps1 -> Permutation ps1 ps2 -> N.of_nat (length S) <= limit ->
-  let d1 := run true limit empty_doc (map to_op ps1) in
-  let d2 := run true limit empty_doc (map to_op ps2) in
+  let d1 := run fx true limit empty_doc (map to_op ps1) in
+  let d2 := run fx true limit empty_doc (map to_op ps2) in
   wf (dtree d1) /\ wf (dtree d2) /\
   (forall i, contains (dtree d1) i = contains (dtree d2) i) /\
   (forall r1 r2, In r1 (dtree d1) -> In r2 (dtree d2) -> rid r1 = rid r2 -> rpar r1 = rpar r2) /\
@@ -97,12 +111,14 @@ Theorem C04_push_order_independent : forall S ps1 ps2 limit,
 Proof. exact push_order_independent. Qed.
 Print Assumptions C04_push_order_independent.
 
-(* ---- every document reachable by ANY sequence of Put / PutExistingRev requests (accepted or
-   rejected, either mode), as long as revs_limit is not reached: forest, current = maximal leaf, flags
-   agree with the leaves, and at most one live leaf in conflict-free mode ---- *)
-Theorem C04_reachable_documents_partial : forall allowC limit ops,
-  Forall valid_op ops -> N.of_nat (ops_size ops) <= limit ->
-  let d := run allowC limit empty_doc ops in
+(* ---- every document reachable by ANY sequence of Put / PutExistingRev requests (accepted or rejected,
+   either mode, ANY revs_limit >= 1, pruning included), for the code as it is now (code_fixed = true:
+   Branched recomputed after pruning): the stored tree is a forest, the current revision is its maximal
+   leaf, Deleted, Conflict AND Branched agree exactly with its leaves, and in conflict-free mode there is
+   at most one live leaf.  This is the full statement. ---- *)
+Theorem C04_reachable_documents : forall allowC limit ops,
+  Forall valid_op ops -> 1 <= limit ->
+  let d := run code_fixed allowC limit empty_doc ops in
   wf (dtree d) /\
   (dtree d <> [] ->
    exists w, max_leaf (dtree d) w /\ dcur d = Some (rid w) /\ ddel d = rdel w /\
@@ -110,16 +126,28 @@ Theorem C04_reachable_documents_partial : forall allowC limit ops,
      (dconf d = true <-> (2 <= length (filter live (leaves (dtree d))))%nat) /\
      (dbranch d = true <-> (2 <= length (leaves (dtree d)))%nat)) /\
   (allowC = false -> (length (filter live (leaves (dtree d))) <= 1)%nat).
-Proof. exact reachable_noprune. Qed.
-Print Assumptions C04_reachable_documents_partial.
+Proof. exact reachable_exact. Qed.
+Print Assumptions C04_reachable_documents.
 
-(* The full statement drops the hypothesis on revs_limit (pruning active).  It is NOT provable as it
-   stands: the stored Branched flag can be stale after a tombstoned branch is pruned
-   (C04_Refuted.C04_stored_branched_flag_refuted).  What is missing for the remaining clauses is
-   [prune_keeps_winner] below. *)
-Definition C04_reachable_documents_full_statement : Prop := forall allowC limit ops,
+(* what held already before the repair (fx = false) and still holds (fx = true): everything except
+   that Branched may be stale-true after pruning *)
+Theorem C04_reachable_documents_any_version : forall fx allowC limit ops,
   Forall valid_op ops -> 1 <= limit ->
-  let d := run allowC limit empty_doc ops in
+  let d := run fx allowC limit empty_doc ops in
+  wf (dtree d) /\
+  (dtree d <> [] ->
+   exists w, max_leaf (dtree d) w /\ dcur d = Some (rid w) /\ ddel d = rdel w /\
+     (ddel d = true <-> forall l, In l (leaves (dtree d)) -> rdel l = true) /\
+     (dconf d = true <-> (2 <= length (filter live (leaves (dtree d))))%nat) /\
+     ((2 <= length (leaves (dtree d)))%nat -> dbranch d = true)) /\
+  (allowC = false -> (length (filter live (leaves (dtree d))) <= 1)%nat).
+Proof. exact reachable_all. Qed.
+Print Assumptions C04_reachable_documents_any_version.
+
+(* the full statement for the code BEFORE commit ac6ea40: refuted in C04_Refuted.v *)
+Definition C04_reachable_documents_old_code_statement : Prop := forall allowC limit ops,
+  Forall valid_op ops -> 1 <= limit ->
+  let d := run false allowC limit empty_doc ops in
   wf (dtree d) /\
   (dtree d <> [] ->
    exists w, max_leaf (dtree d) w /\ dcur d = Some (rid w) /\ ddel d = rdel w /\
@@ -145,11 +173,24 @@ Theorem C04_prune_count : forall maxd t,
 Proof. exact prune_count. Qed.
 Print Assumptions C04_prune_count.
 
-(* not proved (checked by the harness monitors prune_keeps_winner / prune_keeps_live_leaves /
-   prune_depth_bound on every pruned tree): *)
-Definition C04_prune_keeps_winner_full_statement : Prop := forall maxd t, wf t -> 1 <= maxd ->
-  w_id (winner_fold (leaves (fst (prune maxd t)))) = w_id (winner_fold (leaves t)) /\
-  map rid (filter live (leaves (fst (prune maxd t)))) = map rid (filter live (leaves t)).
+(* pruning (maxDepth >= 1) keeps the winner, every live leaf (same ids, still live), and creates no leaf *)
+Theorem C04_prune_keeps_winner : forall maxd t, wf t -> 1 <= maxd ->
+  let s' := winner_fold (leaves (fst (prune maxd t))) in
+  let s := winner_fold (leaves t) in
+  w_id s' = w_id s /\ w_exists s' = w_exists s /\ w_active s' = w_active s /\ w_leaves s' <= w_leaves s.
+Proof. exact prune_keeps_winner. Qed.
+Print Assumptions C04_prune_keeps_winner.
+
+Theorem C04_prune_keeps_live_leaves : forall maxd t, wf t -> 1 <= maxd ->
+  map idel (filter live (leaves (fst (prune maxd t)))) = map idel (filter live (leaves t)).
+Proof. exact prune_keeps_live. Qed.
+Print Assumptions C04_prune_keeps_live_leaves.
+
+(* not proved (checked by the harness monitor prune_depth_bound on every pruned tree): after pruning no
+   node is more than maxd levels above its nearest leaf *)
+Definition C04_prune_depth_bound_full_statement : Prop := forall maxd t, wf t -> 1 <= maxd ->
+  let t' := fst (prune maxd t) in
+  forall r d, In r t' -> depth_of (depth_entries t') (rid r) = Some d -> d <= maxd.
 
 (* ---- storing and reloading (the revTreeList structure of MarshalJSON / UnmarshalJSON) ---- *)
 (* for whatever order t' the encoder iterates the map in, decoding returns exactly that listing *)
@@ -174,8 +215,8 @@ Example C04_nonvacuous :
   add_all [] (List.rev ex_S) = Some ex_S /\
   Forall (valid_push ex_S) ex_ps /\ Forall valid_op (map to_op ex_ps) /\
   winning ex_S = (Some (I 2 [98]), true, false) /\
-  tree_eqb (dtree (run true 100 empty_doc (map to_op ex_ps))) ex_S = true /\
-  dcur (run true 100 empty_doc (map to_op (List.rev ex_ps))) = Some (I 2 [98]) /\
+  tree_eqb (dtree (run code_fixed true 100 empty_doc (map to_op ex_ps))) ex_S = true /\
+  dcur (run code_fixed true 100 empty_doc (map to_op (List.rev ex_ps))) = Some (I 2 [98]) /\
   tree_eqb (fst (prune 1 ex_S)) [ R (I 3 [97]) None true; R (I 2 [98]) None false ] = true.
 Proof.
   split; [vm_compute; reflexivity|].
